@@ -89,12 +89,20 @@ def floor(ctx):
                          'detail': 'original -> %r, padded -> %r' % (a, b)})
         # padding through the encoding utilities
         alphabet = sorted(set(toks2) | {'[nop]', '.'})
+        rnd.shuffle(alphabet)
         stoi = {t: i for i, t in enumerate(alphabet)}
         itos = {i: t for t, i in stoi.items()}
         pad = len(toks2) + rnd.choice([0, 1, 5])
-        lab = sf.selfies_to_encoding(s, stoi, pad_to_len=pad, enc_type='label')
-        back = sf.encoding_to_selfies(lab, itos, 'label')
-        c = outcome(back)
+        try:
+            if rnd.random() < 0.5:
+                lab = sf.selfies_to_encoding(s, stoi, pad_to_len=pad, enc_type='label')
+                back = sf.encoding_to_selfies(lab, itos, 'label')
+            else:
+                hot = sf.selfies_to_encoding(s, stoi, pad_to_len=pad, enc_type='one_hot')
+                back = sf.encoding_to_selfies(hot, itos, 'one_hot')
+            c = outcome(back)
+        except Exception as e:
+            back, c = None, ('encoding-raised', repr(e))
         if c != a and len(viol) < 6:
             viol.append({'clause': 'C13:encoding-padding', 'input': {'original': s, 'padded': back, 'flags': {}},
                          'detail': 'original -> %r, padded -> %r' % (a, c)})
